@@ -276,6 +276,116 @@ def stream_consume(run, rng, n):
 
 
 
+# ================================================================================ DiskCache, direct
+
+PRE_CACHE = HDR + 'Require Import WV.model.C20Cache.\n'
+OBJ_KEYS = ['http://h0/a.png', 'http://h0/bad.png', 'http://h0/d/b.svg', 'data:image/png;base64,QUJD', 'file:///x/y.jpg']
+BYTES_KEYS = ['5d41402abc4b2a76b9719d911017c592-source-', '5d41402abc4b2a76b9719d911017c592-stream-', 'aa-streamalpha-96', 'k-source-300']
+
+
+def gen_cache_ops(rng):
+    undisciplined = rng.random() < 0.12
+    reopen = rng.random() < 0.3
+    ops = []
+    nobj = itertools.count(1)
+    for _ in range(rng.choice([2, 3, 5, 8, 12, 16])):
+        r = rng.random()
+        if r < 0.4:
+            if rng.random() < 0.6:
+                k = rng.choice(OBJ_KEYS)
+                v = ['o', None if rng.random() < 0.5 else next(nobj)]
+                if undisciplined and rng.random() < 0.3:
+                    v = ['b', rng.choice(['PNGDATA', '', 'x'])]
+            else:
+                k = rng.choice(BYTES_KEYS)
+                v = ['b', rng.choice(['PNGDATA', 'IDAT1', '', 'abc'])]
+                if undisciplined and rng.random() < 0.3:
+                    v = ['o', None if rng.random() < 0.5 else next(nobj)]
+            ops.append(['set', k, v])
+        elif r < 0.7:
+            ops.append(['get', rng.choice(OBJ_KEYS + BYTES_KEYS)])
+        elif r < 0.93 or not reopen:
+            ops.append(['in', rng.choice(OBJ_KEYS + BYTES_KEYS)])
+        else:
+            ops.append(['reopen'])
+    # the pattern of a failed image used twice, always present
+    if rng.random() < 0.5:
+        k = rng.choice(OBJ_KEYS)
+        ops += [['in', k], ['set', k, ['o', None]], ['in', k], ['get', k], ['in', k], ['get', k]]
+    return ops
+
+
+def cache_disciplined(ops):
+    for o in ops:
+        if o[0] == 'reopen':
+            return False
+        if o[0] == 'set' and (o[2][0] == 'b') != (o[1] in BYTES_KEYS):
+            return False
+    return True
+
+
+def coq_cvalue(v):
+    if v[0] == 'b':
+        return '(VBytes %s)' % slit8(v[1])
+    return '(VObj None)' if v[1] is None else '(VObj (Some %d%%nat))' % v[1]
+
+
+def coq_cop(o):
+    if o[0] == 'set':
+        return '(OSet %s %s)' % (slit8(o[1]), coq_cvalue(o[2]))
+    if o[0] == 'get':
+        return '(OGet %s)' % slit8(o[1])
+    if o[0] == 'in':
+        return '(OContains %s)' % slit8(o[1])
+    return 'OReopen'
+
+
+def coq_cobs(o):
+    if o[0] == 'set':
+        return 'ObsSet'
+    if o[0] == 'in':
+        return '(ObsIn %s)' % blit(o[1])
+    if isinstance(o[1], str):
+        if o[1] in ('err:FileNotFoundError', 'err:KeyError'):
+            return '(ObsGet None)'
+        return '(ObsGet (Some (VBytes %s)))' % slit8('<<%s>>' % o[1])
+    return '(ObsGet (Some %s))' % coq_cvalue(o[1])
+
+
+def stream_cache(run, rng, n):
+    cases = [{'ops': [['in', 'u'], ['set', 'u', ['o', None]], ['in', 'u'], ['get', 'u']]},
+             {'ops': [['set', 'k-source-', ['b', 'PNG']], ['get', 'k-source-'], ['reopen'], ['get', 'k-source-'], ['in', 'k-source-']]},
+             {'ops': [['get', 'never']]}]
+    while len(cases) < n:
+        cases.append({'ops': gen_cache_ops(rng)})
+    outs = common.run_impl('impl_c20', 'diskcache_ops', cases, limit=60)
+    coq, kept = [], []
+    for c, (st, o) in zip(cases, outs):
+        if st != 'ok':
+            run.fail('DiskCache operation sequence raised outside __getitem__: %s' % (o,), {'stream': 'diskcache-ops', 'case': c},
+                     signature='diskcache-ops-raise')
+            continue
+        coq.append('(%s, %s, %s)' % (lst(coq_cop(x) for x in c['ops']), lst(coq_cobs(x) for x in o), blit(cache_disciplined(c['ops']))))
+        kept.append((c, o))
+    try:
+        masks = common.eval_cases('c20cache', PRE_CACHE, 'list op * list obs * bool', coq, 'cache_judge')
+        mism = [(c, o) for (c, o), m in zip(kept, masks) if m & 1]
+        run.oblige('corr:diskcache-ops(model of DiskCache vs document.DiskCache in a temp folder)', not mism,
+                   'first disagreements: %s' % mism[:2])
+        for (c, o), m in zip(kept, masks):
+            if m & 2:
+                run.fail('a DiskCache does not behave like a dict on this sequence of set/get/in (None is a value): real %s' % (o,),
+                         {'stream': 'diskcache-ops', 'case': c, 'impl': o}, signature='diskcache-differs-from-dict')
+                break
+        run.count('diskcache-ops', len(kept), [json.dumps(c['ops']) for c, _ in kept], samples=[{'case': kept[0][0], 'impl': kept[0][1]}])
+        run.stream_info('diskcache-ops', rule='sequences of 2..22 set/get/in/reopen on a real DiskCache: object keys (URLs) holding objects or '
+                        'None, bytes keys holding bytes, 12% undisciplined (same key both layers), 30% with a second instance on the '
+                        'same folder; half end with "failed image used twice"', disciplined=sum(1 for c, _ in kept if cache_disciplined(c['ops'])),
+                        with_none=sum(1 for c, _ in kept if any(o[0] == 'set' and o[2] == ['o', None] for o in c['ops'])))
+    except RuntimeError as exc:
+        run.oblige('corr:diskcache-ops', False, str(exc))
+
+
 # ================================================================================ documents
 
 PRE_DOC = HDR + 'Require Import WV.model.C20Url WV.model.C20Doc.\nOpen Scope Z_scope.\n'
@@ -333,8 +443,8 @@ def _spell(rng, ctx, t):
 
 
 class DocGen:
-    def __init__(self, rng, nres, file_images=False):
-        self.rng, self.budget, self.file_images = rng, nres, file_images
+    def __init__(self, rng, nres, file_images=False, repeat=False):
+        self.rng, self.budget, self.file_images, self.repeat = rng, nres, file_images, repeat
         self.ids = itertools.count(1)
         self.nraster = itertools.count(1)
         self.world = {}            # abs -> entry {t(arget), kind, content...}
@@ -497,10 +607,48 @@ class DocGen:
                 items.append({'t': 'nofetch', 'form': rng.choice(['icon', 'altsheet', 'screenlink', 'typelink', 'screenimport',
                                                                   'script', 'iframe', 'a', 'video', 'prefetch']),
                               'ref': spell(rng, self.E, t), 'abs': abs_string(t)})
+        self.repeated = None
+        if self.repeat:
+            self.repeat_image(items)
         base_param, base_el = show_base(self.E), None
         if rng.random() < 0.2:
             base_param, base_el = show_base(gen_base(rng, 'http')), show_base(self.E)
         return {'base': base_param, 'base_el': base_el, 'E': self.E, 'items': items}
+
+    def repeat_image(self, items):
+        """the same image URL used several times in one render: <img> twice, <img> + background +
+        list-style-image + content:url(), next to images that load"""
+        rng = self.rng
+        existing = [a for a, e in self.world.items() if e['kind'] == 'image']
+        if existing and rng.random() < 0.7:
+            a = rng.choice(existing)
+        else:
+            im = self.image(self.E, 'top', reuse=False)
+            im.update(t='img', id=next(self.ids), alt=rng.choice(['ALT', '', None]))
+            items.append(im)
+            a = im['abs']
+        e = self.world[a]
+        self.repeated = a
+
+        def ref_to():
+            return {'ref': spell(rng, self.E, e['t']), 'abs': a, 'fmt': e['fmt'], 'n': e.get('n'),
+                    'kids': copy.deepcopy(e.get('kids', []))}
+        css = []
+        for _ in range(rng.choice([1, 2, 2, 3, 4])):
+            im = ref_to()
+            k = rng.choice(['img', 'img', 'object', 'bg', 'lsi', 'content'])
+            if k in ('img', 'object'):
+                im.update(t=k, id=next(self.ids), alt=rng.choice(['ALT', 'ALT', '', None]) if k == 'img' else None)
+                items.insert(rng.randrange(len(items) + 1), im)
+            else:
+                im.update(t=k, id=next(self.ids))
+                css.append(im)
+        if css:
+            items.append({'t': 'style', 'kids': css})
+        if rng.random() < 0.5:          # and an image that loads, after the repeated one
+            im = self.image(self.E, 'top', reuse=False)
+            im.update(t='img', id=next(self.ids), alt='ALT')
+            items.append(im)
 
 
 def ref_str(r):
@@ -725,9 +873,24 @@ def remove_urls(d, urls):
     return d2
 
 
-OPTION_SETS = [{}, {}, {'optimize_images': True}, {'cache_mode': 'dict'}, {'pdf_variant': 'pdf/a-3u'},
+OPTION_SETS = [{}, {}, {}, {'optimize_images': True}, {'pdf_variant': 'pdf/a-3u'},
                {'pdf_variant': 'pdf/ua-1'}, {'uncompressed_pdf': True}, {'optimize_images': True, 'dpi': 20000},
-               {'cache_mode': 'dict', 'pdf_variant': 'pdf/a-3u', 'jpeg_quality': 60}]
+               {'pdf_variant': 'pdf/a-3u', 'jpeg_quality': 60}]
+# the cache option: None (a private dict per render), a caller's dict shared by two renders, a folder
+# (DiskCache: memory layer + files), the same folder for two renders, one DiskCache instance for two renders
+CACHE_KINDS = [None, None, 'dict', 'folder', 'folder', 'folder-shared', 'diskcache']
+TWO_RENDERS = ('dict', 'folder-shared', 'diskcache')
+
+
+def pick_options(rng, gen, f):
+    o = dict(rng.choice(OPTION_SETS))
+    kinds = CACHE_KINDS
+    if gen.repeated and gen.repeated in f:
+        kinds = ['folder', 'folder', 'folder-shared', 'diskcache', 'dict', None]     # a failing URL used several times
+    k = rng.choice(kinds)
+    if k:
+        o['cache_mode'] = k
+    return o
 
 
 def failure_sets(rng, gen, thorough):
@@ -813,19 +976,27 @@ def stream_docs(run, rng, ndocs, thorough=False):
     SPELL_COUNTS.clear()
     for i in range(ndocs):
         nres = rng.choice([1, 2, 3, 4, 5, 6, 8, 10, 12, 12])
-        gen = DocGen(random.Random(rng.getrandbits(48)), nres)
+        gen = DocGen(random.Random(rng.getrandbits(48)), nres, repeat=(i % 2 == 0))
         d = gen.doc()
-        for f in failure_sets(rng, gen, thorough):
-            t_cases.append((gen, d, f, rng.choice(OPTION_SETS)))
+        fsets = failure_sets(rng, gen, thorough)
+        if gen.repeated:
+            # the repeated URL fails under every cache kind, alone and next to another failure
+            others = [u for u in gen.order if u != gen.repeated and gen.world[u]['kind'] == 'image']
+            for m in rng.sample(MODES, 3):
+                fsets.append({gen.repeated: m})
+            if others:
+                fsets.append({gen.repeated: rng.choice(MODES), rng.choice(others): rng.choice(MODES)})
+        for f in fsets:
+            t_cases.append((gen, d, f, pick_options(rng, gen, f)))
     jobs = []
     for gen, d, f, opts in t_cases:
         o = dict(opts)
-        jobs.append({'doc': to_impl_doc(d), 'fails': f, 'options': o, 'second_render': o.get('cache_mode') == 'dict'})
+        jobs.append({'doc': to_impl_doc(d), 'fails': f, 'options': o, 'second_render': o.get('cache_mode') in TWO_RENDERS})
         jobs.append({'doc': to_impl_doc(remove_urls(d, set(f))), 'fails': {}, 'options': o})
     outs = common.run_impl('impl_c20', 'render_case', jobs, limit=120, chunksize=4)
     coq, kept = [], []
     stats = {'renders': len(jobs), 'fetches': 0, 'failing_fetches': 0, 'modes': {}, 'kinds': {}, 'schemes': {}, 'audit_events': 0,
-             'reference_spellings': dict(SPELL_COUNTS), 'options': {}}
+             'reference_spellings': dict(SPELL_COUNTS), 'options': {}, 'cache_kinds': {}, 'repeated_url_failing': 0}
     reported = set()
 
     def fail_once(sig_key, what, data, signature=None):
@@ -843,6 +1014,12 @@ def stream_docs(run, rng, ndocs, thorough=False):
             continue
         if r1['exc'] or r2['exc']:
             e = r1['exc'] or r2['exc']
+            if e['type'] == 'FileNotFoundError' and opts.get('cache_mode') == 'folder-shared' and e['stage'] == 'second' \
+                    and not any(hashlib.md5(u.encode()).hexdigest() in e['msg'] for u in gen.order):
+                # a bytes file of the folder vanished: DiskCache.__del__ of another instance (open C19 finding F144)
+                fail_once(('f144',), 'shared cache folder: %s' % e['msg'], dict(data, exc=e),
+                          signature='c19:diskcache-del-removes-shared-folder')
+                continue
             fail_once(('exc', e['type'], e['site']), 'render with failing fetches %s raised %s at %s during %s: %s' % (
                 sorted(set(f.values())), e['type'], e['site'], e['stage'], e['msg']), dict(data, exc=e),
                 signature='crash:%s:%s' % (e['type'], e['site']))
@@ -850,6 +1027,10 @@ def stream_docs(run, rng, ndocs, thorough=False):
         stats['fetches'] += len(r1['calls'])
         stats['audit_events'] += r1['audit_n']
         stats['options'][json.dumps(opts, sort_keys=True)] = stats['options'].get(json.dumps(opts, sort_keys=True), 0) + 1
+        ck = str(opts.get('cache_mode'))
+        stats['cache_kinds'][ck] = stats['cache_kinds'].get(ck, 0) + 1
+        if gen.repeated and gen.repeated in f:
+            stats['repeated_url_failing'] += 1
         for u, m in f.items():
             if u in r1['calls']:
                 stats['failing_fetches'] += 1
@@ -888,15 +1069,23 @@ def stream_docs(run, rng, ndocs, thorough=False):
                           dict(data, audit=r['audit_bad'][:5]), signature='opened-behind-the-fetcher')
         if r1['extra_args']:
             fail_once(('args',), 'url_fetcher called with extra arguments %s' % (r1['extra_args'][:2],), data)
-        # cache shared by two renders: no image fetched twice, same layout
+        # two renders with the same dict / DiskCache instance / folder
         if 'calls_second' in r1:
+            mode = opts.get('cache_mode')
             again = [u for u in r1['calls_second'] if gen.world.get(u, {}).get('kind') == 'image']
-            if again:
-                fail_once(('cache2',), 'image %s fetched again although the shared cache holds it' % again[:2], data,
+            if mode in ('dict', 'diskcache') and again:
+                fail_once(('cache2',), 'image %s fetched again although the shared %s cache holds it' % (again[:2], mode), data,
                           signature='cache-not-used')
+            if mode == 'folder-shared' and sorted(r1['calls_second']) != sorted(r1['calls']):
+                fail_once(('cache2f',), 'second render on the same cache folder requests %s, the first one %s' % (
+                    sorted(r1['calls_second']), sorted(r1['calls'])), data, signature='cache-folder-second-render-fetches')
             if r1.get('fp_second') != r1['fp']:
-                fail_once(('cache2fp',), 'second render with the shared cache lays out differently', data,
+                fail_once(('cache2fp',), 'second render with the shared %s cache lays out differently' % mode, data,
                           signature='cache-changes-layout')
+            p1, p2 = r1['pdf'], r1['pdf_second']
+            if (p1['images'], p1['files'], p1['file_annots']) != (p2['images'], p2['files'], p2['file_annots']):
+                fail_once(('cache2pdf',), 'second render with the shared %s cache writes other images/files: %s vs %s' % (mode, p1, p2),
+                          data, signature='cache-changes-pdf')
         if r1['pdf']['problems'] or r2['pdf']['problems']:
             fail_once(('pdfstruct',), 'written PDF is structurally unsound: %s' % (r1['pdf']['problems'] or r2['pdf']['problems']), data)
     try:
@@ -929,9 +1118,9 @@ PROBES = [
     # (case, signature of the listed open finding it exhibits on the unchanged tree | None = must hold)
     ({'name': 'lazy-local'}, 'lazy-local-image-rereads-file'),
     ({'name': 'xhtml-image', 'mime': 'text/html'}, 'xml-nonsvg-accepted-as-svg-image'),
-    ({'name': 'svg-style-import'}, 'svg-style-import-attributeerror'),
+    ({'name': 'svg-style-import'}, None),               # F100 fixed: must hold
     ({'name': 'svg-use-external'}, 'svg-use-external-raw-fetcher-call'),
-    ({'name': 'css-import-cycle'}, 'css-import-cycle-recursionerror'),
+    ({'name': 'css-import-cycle'}, None),               # F102 fixed: must hold
     ({'name': 'gzip-truncated-body'}, 'fetch-body-read-error-escapes'),
     ({'name': 'redirected-sheet-base'}, None),
     ({'name': 'no-base-url'}, None),
@@ -953,8 +1142,8 @@ def stream_probes(run, rng, n=None):
         else:
             held += 1
     run.count('probes', len(PROBES), [json.dumps(c, sort_keys=True) for c, _ in PROBES], samples=[PROBES[0][0]])
-    run.stream_info('probes', rule='one hand-made situation each: the six listed findings (file: image re-read at write time, XHTML as '
-                    'image, SVG @import, external <use>, import cycle, truncated gzip body), redirected sheet base, no base URL, '
+    run.stream_info('probes', rule='one hand-made situation each: the four open findings (file: image re-read at write time, XHTML as '
+                    'image, external <use>, truncated gzip body), SVG @import and import cycle (fixed: must hold), redirected sheet base, no base URL, '
                     'a fetcher that serves nothing (no fallback to urllib/files), damaged image bodies x 5 option sets', held=held)
 
 
@@ -962,7 +1151,7 @@ def check(run):
     import time
     rng = random.Random(run.seed * 7919 + 20)
     thorough = run.tier == 'thorough'
-    common.prove(run, 'C20', ['model/C20Url.vo', 'model/C20Fetch.vo', 'model/C20Doc.vo'])
+    common.prove(run, 'C20', ['model/C20Url.vo', 'model/C20Fetch.vo', 'model/C20Doc.vo', 'model/C20Cache.vo'])
     run.trusted += ['Coq 8.16.1 kernel (coqc); vm_compute for the cases.v evaluation',
                     'harness: recording in-memory url_fetcher, document generator and its by-construction absolute URLs, '
                     'observation of effects (box tree, PDF image XObject sizes, embedded payloads) - Python',
@@ -981,6 +1170,7 @@ def check(run):
     stream_urls(run, rng, 4000 if thorough else 1200)
     t1 = time.time()
     stream_consume(run, rng, 1500 if thorough else 700)
+    stream_cache(run, rng, 1500 if thorough else 500)
     t2 = time.time()
     stream_docs(run, rng, 60 if thorough else 24, thorough)
     t3 = time.time()
@@ -997,7 +1187,7 @@ def replay(data):
     st = d.get('stream')
     if st == 'docs':
         jobs = [{'doc': d['doc'], 'fails': d['fails'], 'options': dict(d['options']), 'want_fp': True,
-                 'second_render': d['options'].get('cache_mode') == 'dict'},
+                 'second_render': d['options'].get('cache_mode') in TWO_RENDERS},
                 {'doc': d['doc_removed'], 'fails': {}, 'options': dict(d['options']), 'want_fp': True}]
         (s1, r1), (s2, r2) = common.run_impl('impl_c20', 'render_case', jobs, limit=120)
         bad = 0
@@ -1027,6 +1217,14 @@ def replay(data):
             if unclosed:
                 print('replay: unclosed', unclosed)
         return bad
+    if st == 'diskcache-ops':
+        (s1, o), = common.run_impl('impl_c20', 'diskcache_ops', [d['case']])
+        print('replay: real DiskCache observations', s1, o)
+        m = common.eval_cases('c20cachereplay', PRE_CACHE, 'list op * list obs * bool',
+                              ['(%s, %s, %s)' % (lst(coq_cop(x) for x in d['case']['ops']), lst(coq_cobs(x) for x in o),
+                                                 blit(cache_disciplined(d['case']['ops'])))], 'cache_judge')
+        print('replay: judge mask', m)
+        return 1 if m[0] else 0
     if st == 'consume-direct':
         (s1, o), = common.run_impl('impl_c20', 'consume_direct', [d['case']])
         print('replay:', s1, o)
